@@ -410,7 +410,7 @@ mod vharness {
 
     /// model class: "c<maxcarrier>"; app family for carrier 3 is restricted (see DESIGN §3 E3).
     /// Answer: VALID <models> | INVALID <description> | NONMONO <description>
-    fn validity(t: &T, maxn: usize, counter: &mut u64) -> String {
+    fn validity(t: &T, maxn: usize, budget: u64, counter: &mut u64) -> String {
         let mut ev = Vec::new();
         let mut sv = Vec::new();
         let mut sy = Vec::new();
@@ -419,9 +419,22 @@ mod vharness {
         if ev.len() > 8 || sv.len() > 8 || sy.len() > 3 {
             return String::from("TOOBIG");
         }
+        let mut skipped = false;
         for n in 1..=maxn {
             let full: u32 = (1u32 << n) - 1;
             let nsub: u32 = 1u32 << n;
+            if n >= 3 {
+                // estimated number of (model, valuation) pairs; skip the carrier when over budget
+                let apps: f64 = if has_app { 1034.0 } else { 1.0 };
+                let est = apps
+                    * (nsub as f64).powi(sy.len() as i32)
+                    * (n as f64).powi(ev.len() as i32)
+                    * (nsub as f64).powi(sv.len() as i32);
+                if est > budget as f64 {
+                    skipped = true;
+                    continue;
+                }
+            }
             // application interpretations
             let mut app_family: Vec<Vec<u32>> = Vec::new();
             if !has_app {
@@ -529,7 +542,11 @@ mod vharness {
                 }
             }
         }
-        String::from("VALID")
+        if skipped {
+            String::from("VALID upto2")
+        } else {
+            String::from("VALID")
+        }
     }
 
     // evaluate one term in one explicitly given model (for cross-checking E3 against E3r)
@@ -768,7 +785,7 @@ mod vharness {
                     let tt = it2.next().unwrap_or("");
                     let mut p = Parser { b: tt.as_bytes(), i: 0 };
                     match p.term() {
-                        Some(t) => validity(&t, maxn, &mut eval_counter),
+                        Some(t) => validity(&t, maxn, 300000, &mut eval_counter),
                         None => String::from("ERR parse"),
                     }
                 }
